@@ -7,6 +7,7 @@
 #include <algorithm>
 #include <dirent.h>
 #include <fstream>
+#include <functional>
 #include <map>
 #include <set>
 #include <sstream>
@@ -33,6 +34,7 @@ struct Doc
     std::string path, dir, text;
     bool analysable = false; // lives under generator/ or analyser/: worth analysing
     bool hasImports = false;
+    bool hasResets = false;
 };
 
 std::vector<Doc> &corpus()
@@ -88,6 +90,7 @@ void loadCorpus()
         d.dir = f.substr(0, f.find_last_of('/') + 1);
         d.text = ss.str();
         d.analysable = f.find("/generator/") != std::string::npos || f.find("/analyser/") != std::string::npos;
+        d.hasResets = d.text.find("<reset") != std::string::npos;
         d.hasImports = d.text.find("<import") != std::string::npos;
         corpus().push_back(d);
     }
@@ -120,10 +123,14 @@ Plan generate(Rng &rng, const Opts &opts, uint64_t)
     std::vector<long> docs;
     long nDocs = rng.range(1, 3);
     bool wantAnalysable = rng.chance(2, 3);
+    bool wantResets = rng.chance(1, 5); // documents with resets are few; some runs ask for them
     for (long i = 0; i < nDocs; ++i) {
         for (int tries = 0; tries < 50; ++tries) {
             long d = long(rng.below(corpus().size()));
-            if (!wantAnalysable || corpus()[size_t(d)].analysable || tries > 40) {
+            if (wantResets && !corpus()[size_t(d)].hasResets && tries <= 40) {
+                continue;
+            }
+            if (wantResets || !wantAnalysable || corpus()[size_t(d)].analysable || tries > 40) {
                 docs.push_back(d);
                 break;
             }
@@ -198,7 +205,7 @@ Plan generate(Rng &rng, const Opts &opts, uint64_t)
             ms.push_back(sid);
         } else if (r >= 97) {
             // the client edits one identifier of one of its models (services that remember anything about the model must notice)
-            p.steps.push_back(mk(t, "EDIT", {sid, ms[rng.below(ms.size())], long(rng.below(8)), long(rng.below(16)), long(rng.below(3))}));
+            p.steps.push_back(mk(t, "EDIT", {sid, ms[rng.below(ms.size())], long(rng.below(9 * 8 * 7 * 5)), long(rng.below(16)), long(rng.below(3))}));
         } else if (r >= 95 && ms.size() > 1) {
             // the client lets go of a model; what services still say about it (issues and their items) must stay coherent
             size_t k = rng.below(ms.size());
@@ -217,7 +224,7 @@ Plan generate(Rng &rng, const Opts &opts, uint64_t)
                 long rounds = rng.range(1, 4);
                 for (long k = 0; k < rounds; ++k) {
                     ++sid;
-                    p.steps.push_back(mk(t, "EDIT", {sid, m, long(rng.below(8)), long(rng.below(16)), long(rng.below(3))}));
+                    p.steps.push_back(mk(t, "EDIT", {sid, m, long(rng.below(9 * 8 * 7 * 5)), long(rng.below(16)), long(rng.below(3))}));
                     ++sid;
                     p.steps.push_back(mk(t, "ANNOT", {sid, m, inst}));
                 }
@@ -528,58 +535,41 @@ void execute(const Plan &plan, Ctx &ctx)
             allComponents(m, comps);
             std::string id = s.arg(4) == 0 ? "" : "edited_" + str(s.arg(3)) + "_" + str(sid);
             size_t pick = size_t(s.arg(3));
-            bool done = false;
-            switch (s.arg(2) % 8) {
-            case 0:
-                m->setId(id);
-                done = true;
-                break;
-            case 1:
-                if (!comps.empty()) {
-                    comps[pick % comps.size()]->setId(id);
-                    done = true;
+            // every identifier slot of the model, by kind; the kind is chosen among the kinds the model has
+            static const char *const what[9] = {"model", "encapsulation", "component", "variable", "reset", "test_value", "reset_value", "units", "unit"};
+            std::vector<std::vector<std::function<void()>>> slots(9);
+            slots[0].push_back([&]() { m->setId(id); });
+            slots[1].push_back([&]() { m->setEncapsulationId(id); });
+            for (auto &c : comps) {
+                slots[2].push_back([&, c]() { c->setId(id); });
+                for (size_t k = 0; k < c->variableCount(); ++k) {
+                    auto v = c->variable(k);
+                    slots[3].push_back([&, v]() { v->setId(id); });
                 }
-                break;
-            case 2:
-            case 3:
-            case 4:
-            case 5: {
-                std::vector<ResetPtr> resets;
-                std::vector<VariablePtr> vars;
-                for (auto &c : comps) {
-                    for (size_t k = 0; k < c->resetCount(); ++k) {
-                        resets.push_back(c->reset(k));
-                    }
-                    for (size_t k = 0; k < c->variableCount(); ++k) {
-                        vars.push_back(c->variable(k));
-                    }
+                for (size_t k = 0; k < c->resetCount(); ++k) {
+                    auto r = c->reset(k);
+                    slots[4].push_back([&, r]() { r->setId(id); });
+                    slots[5].push_back([&, r]() { r->setTestValueId(id); });
+                    slots[6].push_back([&, r]() { r->setResetValueId(id); });
                 }
-                if (s.arg(2) % 8 == 2 && !vars.empty()) {
-                    vars[pick % vars.size()]->setId(id);
-                    done = true;
-                } else if (!resets.empty()) {
-                    auto r = resets[pick % resets.size()];
-                    if (s.arg(2) % 8 == 3) {
-                        r->setId(id);
-                    } else if (s.arg(2) % 8 == 4) {
-                        r->setTestValueId(id);
-                    } else {
-                        r->setResetValueId(id);
-                    }
-                    done = true;
-                }
-                break;
             }
-            case 6:
-                if (m->unitsCount() > 0) {
-                    m->units(pick % m->unitsCount())->setId(id);
-                    done = true;
+            for (size_t k = 0; k < m->unitsCount(); ++k) {
+                auto u = m->units(k);
+                slots[7].push_back([&, u]() { u->setId(id); });
+                for (size_t x = 0; x < u->unitCount(); ++x) {
+                    slots[8].push_back([&, u, x]() { u->setUnitId(x, id); });
                 }
-                break;
-            default:
-                m->setEncapsulationId(id);
-                done = true;
             }
+            std::vector<size_t> present;
+            for (size_t k = 0; k < slots.size(); ++k) {
+                if (!slots[k].empty()) {
+                    present.push_back(k);
+                }
+            }
+            size_t kind = present[size_t(s.arg(2)) % present.size()];
+            slots[kind][pick % slots[kind].size()]();
+            bool done = true;
+            ctx.count(std::string("purity_edit_") + what[kind] + "_id");
             if (done) {
                 ctx.count("purity_client_edits_an_identifier");
                 for (auto &h : w.held) {
